@@ -119,12 +119,32 @@ def documented_forms():
     return out
 
 
-def parse_public(s, dim=3):
-    """The real public constructor; returns ('ok', vector) / ('ValueError', msg) / ('other', msg)."""
+_DOMS = {}
+
+
+def _dom(dim):
     import pymoto as pym
-    dom = pym.DomainDefinition(2, 2, 2 if dim == 3 else 0)
+    if dim not in _DOMS:
+        _DOMS[dim] = pym.DomainDefinition(2, 2, 2 if dim == 3 else 0)
+    return _DOMS[dim]
+
+
+DOCUMENTED = set(documented_forms())
+
+
+def parse_public(s, dim=3, bare=False):
+    """The real parser; returns ('ok', vector) / ('ValueError', msg) / ('other', msg).
+    bare=False: the public constructor OverhangFilter(Signal, domain=..., direction=s);
+    bare=True:  OverhangFilter._prepare on an object made with object.__new__ (no Module.__init__, whose
+                inspect.stack() calls cost ~50 ms per object) - used for the bulk of the enumeration."""
+    import pymoto as pym
+    dom = _dom(dim)
     try:
-        m = pym.OverhangFilter(pym.Signal("x", np.zeros(dom.nel)), domain=dom, direction=s)
+        if bare:
+            m = object.__new__(pym.OverhangFilter)
+            m._prepare(dom, direction=s)
+        else:
+            m = pym.OverhangFilter(pym.Signal("x", np.zeros(dom.nel)), domain=dom, direction=s)
     except ValueError as e:
         return "ValueError", str(e)[:80]
     except Exception as e:
@@ -132,12 +152,12 @@ def parse_public(s, dim=3):
     return "ok", [float(v) for v in m.direction]
 
 
-def string_verdict(s, dim=3):
+def string_verdict(s, dim=3, bare=False):
     """None if the clause holds for s, else a description of the failure."""
-    st, val = parse_public(s, dim)
+    st, val = parse_public(s, dim, bare)
     exp = expected_from_string(s)
     if st == "ValueError":
-        if s in documented_forms() and not (dim == 2 and "z" in s.lower()):
+        if s in DOCUMENTED and not (dim == 2 and "z" in s.lower()):
             return "documented form %r rejected: %s" % (s, val)
         return None
     if st == "other":
@@ -158,7 +178,7 @@ def all_strings(maxlen=3):
 
 
 def failing_strings():
-    return [s for s in all_strings() if string_verdict(s) is not None]
+    return [s for s in all_strings() if string_verdict(s, bare=True) is not None]
 
 
 def sc_string_enum(V, P, cfg):
@@ -167,15 +187,19 @@ def sc_string_enum(V, P, cfg):
     strs = list(all_strings())[lo:hi]
     nacc = 0
     for s in strs:
-        v = string_verdict(s)
+        v = string_verdict(s, bare=True)
         K.true("string %r" % s, v is None, "direction-string", info=v)
-        if parse_public(s)[0] == "ok":
+        if v is not None or s in DOCUMENTED:
+            # failing strings and the documented forms also through the public constructor
+            v2 = string_verdict(s)
+            K.true("string(public constructor) %r" % s, v2 is None, "direction-string-public", info=v2)
+        if expected_from_string(s) is not None:
             nacc += 1
     if cfg.get("dim2"):
         for s in documented_forms():
             v = string_verdict(s, dim=2)
-            K.true("string(2D domain) %r" % s, v is None, "direction-string", info=v)
-    return dict(accepted=float(nacc))
+            K.true("string(2D domain) %r" % s, v is None, "direction-string-2d", info=v)
+    return dict(named_one_axis=float(nacc))
 
 
 CONTRACT = '''"""CrossHair contracts for the direction-string parser of pymoto.OverhangFilter._prepare (C14a).
@@ -650,10 +674,10 @@ def _dtag(axis, sign):
 def items(tier):
     q = tier == "quick"
     out = []
-    out.append(dict(kind="string-crosshair", id="string-crosshair-len3", func="direction_string_ok_len3", timeout_s=30))
-    out.append(dict(kind="string-crosshair", id="string-crosshair-len1", func="direction_string_ok_len1", timeout_s=60))
+    out.append(dict(kind="string-crosshair", id="string-crosshair-len3", func="direction_string_ok_len3", timeout_s=30, timeout=400))
+    out.append(dict(kind="string-crosshair", id="string-crosshair-len1", func="direction_string_ok_len1", timeout_s=100, timeout=400))
     out.append(dict(kind="string-crosshair", id="string-crosshair-twin", func="twin_parser_rejects_everything", timeout_s=30,
-                    twin=True))
+                    twin=True, timeout=400))
     nstr = sum(len(ALPHABET) ** k for k in range(4))
     step = 205
     for lo in range(0, nstr, step):
@@ -709,7 +733,7 @@ def replay(cfg, label, env, case):
         if kind == "string-crosshair":
             s = env.get("direction")
         else:
-            m = re.match(r"string(?:\(2D domain\))? (.*)$", label)
+            m = re.match(r"string(?:\(2D domain\)|\(public constructor\))? (.*)$", label)
             s = ast.literal_eval(m.group(1)) if m else None
         if not isinstance(s, str):
             return dict(reproduced=None, detail="no string in the counterexample (%r)" % (label,))
